@@ -216,7 +216,7 @@ Definition run_cmd (text : str) (cur : Z) (k : opk) (arg : Z) (hc : bool) (keys 
 
 (* case = (text cursor (opkind p1 p2) arg count-typed (key data ...) (tok p1 p2 p3) fix);
    key data = the operator's key sequence *)
-Definition run_C08 (c : sx) : sx :=
+Definition run_C08_cmd (c : sx) : sx :=
   match c with
   | L [t; A cur; op; A arg; A hc; ks; m; A fx] =>
       match as_str t, dec_opk op, as_str ks, dec_tok m with
